@@ -15,6 +15,7 @@ Functions:
 
 from __future__ import annotations
 
+import itertools as it
 from collections.abc import Callable
 from dataclasses import dataclass
 from functools import partial
@@ -237,10 +238,16 @@ def _protocol_worker(
     except ZeroDivisionError:
         res = Result(Exception())
 
-    time_points = np.linspace(
-        0,
-        protocol.index[-1].total_seconds(),
-        len(protocol) * time_points_per_step,
+    # Same time axis a successful run has: the start and every step's points
+    t_ends = [0.0, *(cast(pd.Timedelta, t).total_seconds() for t in protocol.index)]
+    time_points = np.concatenate(
+        [
+            [0.0],
+            *(
+                np.linspace(t0, t1, time_points_per_step + 1)[1:]
+                for t0, t1 in it.pairwise(t_ends)
+            ),
+        ]
     )
     return res.default(lambda: Simulation.default(model=model, time_points=time_points))
 
@@ -278,7 +285,16 @@ def _protocol_time_course_worker(
     except ZeroDivisionError:
         res = Result(Exception())
 
-    return res.default(lambda: Simulation.default(model=model, time_points=time_points))
+    # Same time axis a successful run has: the start, the supplied points inside
+    # the protocol and the control points of the protocol
+    t_ends = [cast(pd.Timedelta, t).total_seconds() for t in protocol.index]
+    tps = np.array(time_points, dtype=float)
+    full_time_points = np.unique(
+        np.concatenate([[0.0], tps[(tps > 0) & (tps <= t_ends[-1])], t_ends])
+    )
+    return res.default(
+        lambda: Simulation.default(model=model, time_points=full_time_points)
+    )
 
 
 @dataclass(kw_only=True, slots=True)
